@@ -75,6 +75,9 @@ type handlerSpec struct {
 	// message (its envelope is out, its payload is not) while the reader goroutine hits a malformed request
 	// envelope; only then is the writer allowed to go on
 	Duplex bool `json:"duplex"`
+	// after the response has been written and before the handler returns, another RPC with a 1500-byte
+	// response runs to completion on the same Transcoder, on the handler's goroutine
+	NestBig bool `json:"nestbig"`
 	Ignore  bool        `json:"ignore"`  // ignore request-side failures (hostile handler)
 }
 
@@ -193,5 +196,6 @@ type observation struct {
 	Ref        refObs        `json:"ref"`
 	Pool       []poolEvent   `json:"pool"` // pool hook events of the Transcoder this RPC ran on (history / concurrency families)
 	PoolMaxCap int           `json:"poolmaxcap"`
+	HistPanics []string      `json:"histpanics"` // panics of the RPCs that ran before the probe (history family)
 	Note       string        `json:"note"`
 }
